@@ -1068,6 +1068,15 @@ func (x *Exec) guardedAccess(fr *Frame, st *State, in ssa.Instruction, p Val, wr
 		return
 	}
 	g, ok := x.eng.guarded[p.A.Key]
+	base := p.A.Base
+	if !ok && strings.HasPrefix(base, "(sub.") {
+		// a field of a struct-typed guarded field (c.lastSig.Height with lastSig guarded): the lock is in the enclosing object
+		if i := strings.IndexByte(base, ' '); i > 0 {
+			if sg, isSub := x.eng.guardedSub[base[1:i]]; isSub {
+				g, ok, base = sg, true, base[i+1:len(base)-1]
+			}
+		}
+	}
 	if !ok {
 		return
 	}
@@ -1075,7 +1084,12 @@ func (x *Exec) guardedAccess(fr *Frame, st *State, in ssa.Instruction, p Val, wr
 		return
 	}
 	// the lock lives in the same object: key of the sub-object ref
-	lk := x.subRefTerm(g.owner, g.lockField, p.A.Base)
+	lk := ""
+	if g.global != "" {
+		lk = x.decls.Const(g.global, "Int")
+	} else {
+		lk = x.subRefTerm(g.owner, g.lockField, base)
+	}
 	cond := st.heldW(lk)
 	if !write {
 		cond = sOr(cond, st.heldR(lk))
@@ -1084,7 +1098,11 @@ func (x *Exec) guardedAccess(fr *Frame, st *State, in ssa.Instruction, p Val, wr
 	if write {
 		kind = "guarded_by:write"
 	}
-	x.check(fr, st, x.label(fr.fn, in, "nil-deref:load")+"."+kind+":"+g.name, "guarded_by", cond, in)
+	lk0 := "nil-deref:load"
+	if write {
+		lk0 = "nil-deref:store"
+	}
+	x.check(fr, st, x.label(fr.fn, in, lk0)+"."+kind+":"+g.name, "guarded_by", cond, in)
 }
 
 func (x *Exec) subRefTerm(owner types.Type, field string, ref string) string {
